@@ -20,7 +20,7 @@ func init() {
 		ID: "C16",
 		Rule: "FC monitor over batch 1..6 x features 1..6 x outputs 1..6 (all 216 size triples, several histories each): the layer is built with NewFC and custom non-uniform initializers (or the defaults), then a history of 1-4 parameter replacements through Weights() pointers - pointers taken before the first Forward, after it, or freshly each time - interleaved with Forward calls; every Forward result is compared with y[b][o] = W[o]*sum_d x[b][d] + B[o] for the parameters that are current by then; row independence is checked by perturbing one input row; Weights() must dereference to the tensors last written. " +
 			"Then BackPropagate(y*G) with random non-uniform G: gradients of W, B and a tracked input against dW[o] = sum_b g[b][o] sum_d x[b][d], dB[o] = sum_b g[b][o], dx[b][d] = sum_o g[b][o] W[o], with the parameters' shapes. For batch > 1 W and B are expanded over the batch: a mismatch is attributed to the recorded finding only if every gradient equals the reference with BroadcastRule=Avg; batch 1 must be exact. Default initializers: Weight within +-sqrt(6/(in+out)), Bias zero, both tracked. " +
-			"Non-trivial: W and B non-uniform and (batch > 1 or outputs > 1); distinct = (batch, features, outputs, pointer discipline, number of replacements, tracked input).",
+			"Non-trivial: W and B non-uniform and (batch > 1 or outputs > 1); distinct = (batch, features, outputs, pointer discipline, number of replacements, tracked input). Later additions: feature or batch sizes 127..1025; the batch size changes between Forward calls on one layer; half of the histories call Forward through a method value bound once; one initializer object for Weight and Bias of two layers; n Forward calls followed by n BackPropagate calls (gradient accumulation); the config struct and its map overwritten after construction.",
 		Assumptions: []string{"forward values compared within 1e-12 relative (+1e-12 absolute x magnitude of the summed terms)"},
 		FloorQuick:  1500, FloorThor: 5000,
 		Run: runC16,
